@@ -10,10 +10,46 @@ def plan(tier, seed):
         units.append(dict(hfile='free.py', fname='c19_categorize', args=(n,), summary_mode=False,
                           split=(64 if n >= 3 else 0)))
     for n in range(0, nt + 1):
-        units.append(dict(hfile='free.py', fname='c19_tokenize', args=(n,), summary_mode=True,
+        units.append(dict(hfile='free.py', fname='c19_tokenize', args=(n,), summary_mode=True, hang_label='C19:tokenizer-does-not-terminate',
                           split=(256 if n >= 5 else 96 if n == 4 else (8 if n == 3 else 0))))
     return dict(units=units,
                 bounds={'categorize_direct': 'real categorize on every string of length 0..%d, all code points (length 1 = the all-1,114,112-code-points claim, decided per cell by z3)' % nd,
                         'tokenize_summary': 'tokenize(categorize(s)) for every string of length 0..%d, all code points' % nt},
                 outside=['strings longer than the bounds; multi-character command names beyond those reachable in %d characters' % nt],
                 assumptions=['the category partition lemma (21 cells, disjoint and complete by z3) is recomputed from the source on every run'])
+
+
+def after(tier, seed, results, log):
+    """Bug hunting only: when the real categorize could not be executed symbolically (a change made it use an
+    operation the engine does not model), sweep all 1,114,112 code points natively.  A failure found this way is a
+    real execution and is reported; finding none leaves the run inconclusive (never a pass)."""
+    broken = [r for r in results if 'engine_error' not in r and not r.get('twin') and r['unit'][1] == 'c19_categorize'
+              and (not r['complete'] or r['status'].get('unsupported'))]
+    if not broken:
+        return None
+    import os
+    import sys
+    repo = os.environ.get('VERIF_REPO', '/repo')
+    if repo not in sys.path:
+        sys.path.insert(0, repo)
+    for k in [k for k in sys.modules if k == 'TexSoup' or k.startswith('TexSoup.')]:
+        del sys.modules[k]
+    from TexSoup.category import categorize
+    from TexSoup.utils import CC
+    bad = []
+    for cp in range(0x110000):
+        ch = chr(cp)
+        try:
+            toks = list(categorize(ch))
+            ok = len(toks) == 1 and str(toks[0]) == ch and toks[0].position == 0 and isinstance(toks[0].category, CC)
+            why = None if ok else 'tokens %r' % (toks,)
+        except Exception as e:
+            ok, why = False, repr(e)
+        if not ok:
+            bad.append((cp, why))
+            if len(bad) >= 5:
+                break
+    log('  native sweep of all code points (symbolic categorize unsupported): %d failures' % len(bad))
+    viols = [{'label': 'C19:one-token-per-char', 'vals': [cp], 'detail': {'code_point': 'U+%04X' % cp, 'result': why, 'found_by': 'native sweep (fallback)'},
+              'unit': ('free.py', 'c19_categorize', (1,), None)} for cp, why in bad[:1]]
+    return {'violations': viols, 'problems': [], 'evidence': {'native_code_point_sweep': {'failures': len(bad)}}}
